@@ -50,6 +50,11 @@ type profile struct {
 	V13    bool
 	C, S   world.Cfg
 	Resume string // "": none; "unknown": client offers a session id the server's store no longer has; "known": store has it
+	// SendFault: whenever an attacker datagram reaches the server its transport refuses the next WriteTo once with
+	// a temporary, non-timeout net.Error (what a connected UDP socket reports after an ICMP port unreachable —
+	// which is what a spoofed victim's host answers a cookie request with). Whatever the library makes of the
+	// failed send, a cookie request may still leave only in direct response to a ClientHello, never on a timer.
+	SendFault bool
 }
 
 func profiles() []profile {
@@ -72,6 +77,9 @@ func profiles() []profile {
 		// retransmission configuration of the server: backoff disabled, short flight interval (the timer path that
 		// must never emit a cookie request depends on these options; added after a seeded change hid behind them)
 		{Name: "12nb", S: world.Cfg{NoBackoff: true, FlightInterval: 300 * time.Millisecond}},
+		{Name: "12sf", SendFault: true},
+		{Name: "12nbsf", SendFault: true, S: world.Cfg{NoBackoff: true, FlightInterval: 300 * time.Millisecond}},
+		{Name: "13sf", V13: true, SendFault: true, C: v13(world.Cfg{}), S: v13(world.Cfg{})},
 		{Name: "13nb", V13: true, C: v13(world.Cfg{}), S: v13(world.Cfg{NoBackoff: true, FlightInterval: 300 * time.Millisecond})},
 	}
 }
@@ -498,7 +506,8 @@ type runner struct {
 	tr     world.Tracer
 	tsteps int
 	// notHello: the datagrams of the current "second" are not ClientHello datagrams
-	notHello bool
+	notHello  bool
+	sendFault bool
 }
 
 // newServerEmissions returns what the server emitted since the last call and clears the network.
@@ -525,6 +534,10 @@ func (r *runner) visit(ev string) {
 // deliver hands one attacker datagram to the server and judges the reaction. completes is the body
 // of the ClientHello this datagram completes (nil if it is not the last fragment).
 func (r *runner) deliver(tag string, d []byte, elicit int, completes []byte, second bool) {
+	if r.sendFault && second {
+		r.pr.S.PC.FailNextWrites(1, world.TempNetErr{})
+		defer r.pr.S.PC.FailNextWrites(0, nil)
+	}
 	ok := r.w.Push(world.ClientAddr, world.ServerAddr, d)
 	if ok && !r.notHello {
 		r.orc.chDgrams++
@@ -756,7 +769,7 @@ func runExec(t *testing.T, p *world.PKI, c execCase, seed uint64, ref *genuine) 
 			return
 		}
 		defer pr.CloseAll()
-		r := &runner{w: w, pr: pr, orc: &oracle{v13: v13}}
+		r := &runner{w: w, pr: pr, orc: &oracle{v13: v13}, sendFault: c.P.SendFault}
 		finish := func() {
 			o.States, o.Transitions = r.tr.States, r.tr.Trans
 			_, serr := pr.S.HS.Result()
